@@ -11,18 +11,17 @@ from common import T_COMMON
 #   c11.holds.deporder       64 calls of Dependencies() all enumerate in the model's order
 # n = number of generated histories (each gives 4 lines, every second one also one deporder line per struct node).
 CFG = dict(
-    theorems=["reachable_inv", "spec_is_from_scratch", "read_fresh", "processed_is_fresh", "eval_frame",
+    theorems=["reachable_inv", "spec_is_from_scratch", "outdated_is_outdated", "valid_fixed_numbering", "read_fresh", "processed_is_fresh", "eval_frame",
               "reads_idempotent", "exec_only_if_outdated", "exec_only_if_changed", "reexecution_needs_change",
               "version_counts_executions", "struct_version_counts_executions", "version_step_exact",
-              "remembered_length", "inCone_iff_reach", "wf_preserved", "permuted_deps_spurious", "stable_deps_not_spurious", "permuted_deps_still_fresh_partial"],
+              "remembered_length", "inCone_iff_reach", "permuted_deps_spurious", "stable_deps_not_spurious", "permuted_deps_still_fresh_partial"],
     streams=[dict(name="c11", n=dict(quick=6000, thorough=100000))],
     trusted=[T_COMMON[1], T_COMMON[2],
              "hand-written model PolyVerif/Model/Nodes.lean of nodes/struct_node.go, value_node.go, parameter/value.go "
              "(tied by stream c11: every op of every history, all nodes observed; not generated from source)",
              "harness reads the private cache field `value` of nodes.Struct through reflect (observation only)"],
-    residue=["guard, not theorem: the graph admits a numbering in which every dependency has a smaller id, fixed over the "
-             "history (acyclic; the Go API has no cycle check and Outdated() diverges on a cycle). Histories whose re-wiring "
-             "would need the numbering to change (A->B removed, then B->A) are outside the theorems",
+    residue=["guard, not theorem: the graph is acyclic after every call (Valid: it admits SOME ranking, which may change from call "
+             "to call, bounded by the fuel F; ids are just names). The Go API has no cycle check and Outdated() recurses forever on a cycle",
              "guard: every processor reads ALL its wired inputs in Dependencies() order (model `pull`); a processor that skips an "
              "input leaves it stale and is re-executed on every read (code and model alike)",
              "Process() errors (`sn.err`) and subscriptions (`Alert`) are not modelled",
